@@ -767,7 +767,12 @@ impl StakingCheck {
                         let want = expected.get(h).copied().unwrap_or(0) as i128;
                         if delta != want {
                             let sig = if delta > want { "payout-early-or-too-much" } else { "payout-late-or-too-little" };
-                            out.push(v("C14", sig, format!("step {}: block update to +{} s changed the balance of {} by {}; unbondings matured by now (after slashes) pay {}", step, dt, h, delta, want)));
+                            let mut viol = v("C14", sig, format!("step {}: block update to +{} s changed the balance of {} by {}; unbondings matured by now (after slashes) pay {}", step, dt, h, delta, want));
+                            if !w.slashed_positive.is_empty() {
+                                // the amount of a pending unbonding after a slash is C16's as well
+                                viol.owners.push("C16");
+                            }
+                            out.push(viol);
                             break;
                         }
                     }
